@@ -21,6 +21,11 @@ func validSetup(r *RNG, cmd string) cmdSetup {
 	w := r.Range(8, 40)
 	ref := randSeq(r, w, symACGT, false)
 	n := r.Range(3, 6)
+	if r.Chance(1, 3) {
+		// many more records than any reader looks ahead (channels hold about one record per CPU): a command that stops
+		// reading once its answer is settled never reaches a defect in a late record
+		n = r.Range(40, 80)
+	}
 	var seqs []string
 	for i := 0; i < n; i++ {
 		seqs = append(seqs, mutateSeq(r, ref, symACGT, 1, 8, false))
@@ -152,7 +157,7 @@ func c18Gen(r *RNG, id string) *Case {
 	cmd := r.PickStr(cmds)
 	c.Set("cmd", cmd).Set("expect", "refuse")
 	c.SetInt("setupseed", r.Intn(1<<30))
-	kinds := []string{"short-row", "long-row", "bad-symbol", "missing-file", "empty-file", "width-mismatch", "two-record-reference"}
+	kinds := []string{"short-row", "long-row", "bad-symbol", "missing-file", "empty-file", "width-mismatch", "two-record-reference", "late-short-row", "late-bad-symbol"}
 	switch cmd {
 	case "toma", "topa", "samvariants":
 		kinds = []string{"empty-sam", "missing-file", "empty-file"}
@@ -170,7 +175,7 @@ func c18Gen(r *RNG, id string) *Case {
 	case "variants":
 		kinds = []string{"short-row", "long-row", "bad-symbol", "missing-file", "empty-file", "bad-suffix", "width-mismatch"}
 	case "closest", "closest-n":
-		kinds = []string{"short-row", "long-row", "bad-symbol", "missing-file", "empty-file", "width-mismatch"}
+		kinds = []string{"short-row", "long-row", "bad-symbol", "missing-file", "empty-file", "width-mismatch", "late-short-row", "late-bad-symbol", "late-short-row", "late-bad-symbol"}
 	}
 	c.Set("kind", r.PickStr(kinds))
 	c.Set("where", r.PickStr([]string{"first", "middle", "last"}))
@@ -223,6 +228,28 @@ func execExitC18(c *Case, dir string) {
 	case "short-row", "long-row", "bad-symbol":
 		s.files[target] = corruptFasta(r, s.files[target], kind, c.Get("where"))
 		c.Set("text", s.files[target]).Set("file", target)
+	case "late-short-row", "late-bad-symbol":
+		// the defect sits in the last of many records, far beyond what any reader has looked ahead to when the command
+		// could already know its answer (e.g. every query of `closest` has found an identical, complete target)
+		f := s.fastas[len(s.fastas)-1]
+		lines := strings.Split(strings.TrimSuffix(s.files[f], "\n"), "\n")
+		tmpl := lines[len(lines)-1]
+		var b strings.Builder
+		b.WriteString(strings.Join(lines, "\n") + "\n")
+		nLate := r.Range(40, 90)
+		for k := 0; k < nLate; k++ {
+			q := mutateSeq(r, tmpl, symACGT, 1, 8, false)
+			if k == nLate-1 {
+				if kind == "late-short-row" {
+					q = q[:len(q)-1]
+				} else {
+					q = q[:len(q)/2] + "Z" + q[len(q)/2+1:]
+				}
+			}
+			fmt.Fprintf(&b, ">late%d\n%s\n", k, q)
+		}
+		s.files[f] = b.String()
+		c.Set("file", f).SetInt("late", nLate)
 	case "missing-file":
 		f := anyFile()
 		delete(s.files, f)
